@@ -65,6 +65,13 @@ class ConvertStreamToSnaxStreamPattern(RewritePattern):
             # Fetch the first stride
             stride, bound = next(access_iter)
 
+            # the innermost accessed dimension is taken for a contiguous run of elements: its stride has to be
+            # the element width, otherwise the banks fetched below hold other bytes than the accessed elements
+            element_type = op.body.block.arg_types[operand].element_type
+            if isinstance(element_type, builtin.FixedBitwidthType) and stride * bound >= TCDM_BANK_WIDTH:
+                if stride != element_type.size:
+                    raise RuntimeError("Non-contiguous access is not possible for this streamer configuration")
+
             # TCDM takes 8 contiguous bytes minimum
             if stride * bound == TCDM_BANK_WIDTH:
                 stride, bound = next(access_iter)
@@ -76,6 +83,8 @@ class ConvertStreamToSnaxStreamPattern(RewritePattern):
                 )
                 stride, bound = next(access_iter)
             else:
+                if (stride * bound) % TCDM_BANK_WIDTH != 0:
+                    raise RuntimeError("Access does not cover a whole number of TCDM banks")
                 stride, bound = TCDM_BANK_WIDTH, (stride * bound) // TCDM_BANK_WIDTH
 
             # fill up all spatial strides
@@ -96,6 +105,9 @@ class ConvertStreamToSnaxStreamPattern(RewritePattern):
                     applied_stride = stride * bound
                     applied_bound = spat_size // bound
                     next_stride, next_bound = next(access_iter)
+                    if next_bound % applied_bound != 0:
+                        # the streamer dimension would take a fraction of the next pattern dimension
+                        raise RuntimeError("Access dimensions cannot be merged into this streamer configuration")
                     if applied_stride != next_stride:
                         # next stride of 0 is allowed in case of broadcasting, but then the
                         # next stride should be forced to 0
